@@ -75,6 +75,17 @@ func c19Populate(t *rapid.T, tdir string) (mustGo, nearMiss int) {
 		write("upload/0000-00-00.json/keep.txt")
 		vstats.Label("dataLikeDirs")
 	}
+	// unrelated entries right next to the mode file, with names a careless implementation might use itself
+	for _, n := range []string{"mode.tmp", "mode.bak", "mode.lock", "mode~", ".mode.swp", "mode.new", "mode.tmp/keep.txt"} {
+		if rapid.IntRange(0, 5).Draw(t, "sibling:"+n) == 0 {
+			if strings.HasSuffix(n, "/keep.txt") {
+				if _, err := os.Stat(filepath.Join(tdir, "mode.tmp")); err == nil {
+					continue // already a file
+				}
+			}
+			write(n)
+		}
+	}
 	if rapid.Bool().Draw(t, "subdirs") {
 		write("local/sub/inner.json")
 		write("local/sub/inner.v1.count")
